@@ -135,6 +135,7 @@ func ExploreScenario(r *verifmc.Run, sc Scenario, bound int) Stats {
 	// iterative preemption bounding: complete bound 0, then 1, ... while the projected cost fits
 	var st Stats
 	completed := -1
+	stride := 1
 	for b := 0; b <= bound; b++ {
 		if b >= 1 {
 			// executions grow roughly by a factor (#points) per extra preemption; each costs #points steps
@@ -142,13 +143,31 @@ func ExploreScenario(r *verifmc.Run, sc Scenario, bound int) Stats {
 			if cost < 1 {
 				cost = 1
 			}
-			proj := st.Executions * (st.MaxPoints + 1) / b * (st.MaxPoints + 1 + 50*cost)
+			proj := st.Executions * stride * (st.MaxPoints + 1) / b * (st.MaxPoints + 1 + 50*cost)
 			if proj > budget {
-				r.Cap(fmt.Sprintf("%s: preemption bound %d not attempted (projected %d scheduling steps > budget %d)", sc.Name, b, proj, budget))
-				break
+				// thin the preemption points (declared, deterministic) until the bound fits
+				ok := false
+				for _, k := range []int{2, 3, 5, 7, 11, 13, 17, 23, 31, 47, 61, 97} {
+					if k < stride {
+						continue
+					}
+					d := 1
+					for x := 0; x < b; x++ {
+						d *= k
+					}
+					if proj/d <= budget {
+						stride, ok = k, true
+						break
+					}
+				}
+				if !ok || b >= 2 {
+					r.Cap(fmt.Sprintf("%s: preemption bound %d not attempted (projected %d scheduling steps > budget %d)", sc.Name, b, proj, budget))
+					break
+				}
+				r.Cap(fmt.Sprintf("%s: preemption bound %d explored with preemption points thinned to every %d-th step", sc.Name, b, stride))
 			}
 		}
-		st = Explore(Options{Bound: b, MaxExecs: 2000000, MaxSteps: 20000}, body)
+		st = Explore(Options{Bound: b, MaxExecs: 2000000, MaxSteps: 200000, Stride: stride}, body)
 		if st.Capped {
 			break
 		}
@@ -157,6 +176,7 @@ func ExploreScenario(r *verifmc.Run, sc Scenario, bound int) Stats {
 			break // the first counterexample has the fewest preemptions
 		}
 	}
+	r.Set("stride:"+sc.Name, stride)
 	r.Count(fmt.Sprintf("scenarios_completed_at_bound_%d", completed), 1)
 	r.State(st.Executions)
 	r.Transition(int(st.Points))
@@ -220,14 +240,25 @@ func RunScenarios(r *verifmc.Run, scs []Scenario, bound int) {
 	// one P: every hand-off is a direct goroutine switch (no OS-thread wake-up), which is much
 	// faster and independent of machine load; parallelism comes from packages running as processes.
 	defer runtime.GOMAXPROCS(runtime.GOMAXPROCS(1))
+	total := 0
 	for _, sc := range scs {
 		if r.Replaying() {
 			ReplayScenario(r, sc, r.ReplayCase())
 			continue
 		}
 		st := ExploreScenario(r, sc, bound)
-		if st.Executions < 3 && r.NumViolations() == 0 {
-			r.Vacuous(fmt.Sprintf("scenario %s explored only %d schedule(s): no scheduling points reached (instrumented files missing?)", sc.Name, st.Executions))
+		total += st.Executions
+		if st.MaxPoints <= len(sc.Threads)+1 {
+			// no scheduling point inside the operations: only the thread orders were explored
+			r.Count("scenarios_without_scheduling_points", 1)
+		} else {
+			r.Count("scenarios_with_scheduling_points", 1)
+		}
+	}
+	if !r.Replaying() && r.NumViolations() == 0 {
+		if total < 10 || r.Counter("scenarios_with_scheduling_points") == 0 {
+			r.Vacuous(fmt.Sprintf("only %d schedules explored and %d scenarios reached scheduling points (instrumented files missing?)",
+				total, r.Counter("scenarios_with_scheduling_points")))
 		}
 	}
 	r.Set("preemption_bound", bound)
